@@ -1,18 +1,17 @@
 package core
 
 import (
-	"bufio"
 	"fmt"
 	"go/ast"
 	"go/token"
 	"go/types"
-	"os"
 	"reflect"
 	"sort"
-	"strings"
 
 	"golang.org/x/tools/go/ast/astutil"
+
 	"golang.org/x/tools/go/packages"
+	"verif/checker/internal/astx"
 )
 
 // Helper inlining.
@@ -20,7 +19,7 @@ import (
 // The rules name their anchors (functions of the pinned tree). A behaviour-preserving
 // "extract helper" / "split function" refactoring moves part of an anchor into a function the
 // rules have never heard of. To keep verdicts independent of such refactorings, every function
-// that is NOT in the baseline inventory (checker/baseline_funcs.txt, the functions of the pinned
+// that is NOT in the baseline inventory (checker/baseline_decls.txt, the functions of the pinned
 // tree) is inlined into its callers before the rules run: statement-level calls are replaced by
 // the callee's body (returns become assignments + a labelled break), calls of single-expression
 // helpers are replaced by that expression. Type information is carried over to the copies, so the
@@ -37,24 +36,6 @@ type inliner struct {
 	Inlined   []string
 }
 
-// LoadBaseline reads the function inventory of the pinned tree.
-func LoadBaseline(path string) (map[string]bool, error) {
-	f, err := os.Open(path)
-	if err != nil {
-		return nil, err
-	}
-	defer f.Close()
-	out := map[string]bool{}
-	sc := bufio.NewScanner(f)
-	for sc.Scan() {
-		line := strings.TrimSpace(sc.Text())
-		if line != "" && !strings.HasPrefix(line, "#") {
-			out[line] = true
-		}
-	}
-	return out, sc.Err()
-}
-
 // FuncInventory lists "pkgpath.Func" / "pkgpath.Type.Method" for all first-party declarations.
 func (p *Program) FuncInventory() []string {
 	var out []string
@@ -68,11 +49,11 @@ func (p *Program) FuncInventory() []string {
 }
 
 // InlineNewHelpers inlines every function that is not in the baseline inventory.
-func (p *Program) InlineNewHelpers(baseline map[string]bool) {
+func (p *Program) InlineNewHelpers(baseline *Baseline) {
 	for _, pkg := range p.All {
 		in := &inliner{prog: p, pkg: pkg, info: pkg.TypesInfo, cands: map[*types.Func]*ast.FuncDecl{}, remaining: map[*types.Func]int{}}
 		for _, fd := range p.AllFuncDeclsRaw(pkg) {
-			if baseline[pkg.PkgPath+"."+FuncName(fd)] {
+			if baseline.HasFunc(pkg.PkgPath + "." + FuncName(fd)) {
 				continue
 			}
 			obj, _ := in.info.Defs[fd.Name].(*types.Func)
@@ -89,6 +70,7 @@ func (p *Program) InlineNewHelpers(baseline map[string]bool) {
 			for _, fd := range p.AllFuncDeclsRaw(pkg) {
 				if in.rewriteBody(fd) {
 					changed = true
+					p.mutated = true
 				}
 			}
 			if !changed {
@@ -437,7 +419,23 @@ func (in *inliner) rewriteBody(fd *ast.FuncDecl) bool {
 		if !ok {
 			return true
 		}
-		if rep := in.inlineStmt(stmt, self); rep != nil {
+		if c.Name() == "Init" || c.Name() == "Post" {
+			return true // handled with the enclosing statement (a block cannot stand there)
+		}
+		// `v, err := helper(); if err != nil { ... }`: the check moves to the helper's return sites
+		if as, isAssign := stmt.(*ast.AssignStmt); isAssign && c.Index() >= 0 {
+			if list := stmtList(c.Parent()); list != nil && c.Index()+1 < len(list) {
+				if next, isIf := list[c.Index()+1].(*ast.IfStmt); isIf && next.Init == nil && in.nilCheckOf(next, as) != nil {
+					if rep := in.inlineStmt(stmt, self, next); rep != nil {
+						c.Replace(rep)
+						list[c.Index()+1] = &ast.EmptyStmt{Semicolon: next.Pos(), Implicit: true}
+						changed = true
+						return true
+					}
+				}
+			}
+		}
+		if rep := in.inlineStmt(stmt, self, nil); rep != nil {
 			c.Replace(rep)
 			changed = true
 		}
@@ -473,7 +471,7 @@ func (in *inliner) rewriteBody(fd *ast.FuncDecl) bool {
 }
 
 // inlineStmt returns the replacement of a statement that consists of a call to a candidate.
-func (in *inliner) inlineStmt(stmt ast.Stmt, self *types.Func) ast.Stmt {
+func (in *inliner) inlineStmt(stmt ast.Stmt, self *types.Func, cont *ast.IfStmt) ast.Stmt {
 	var call *ast.CallExpr
 	var lhs []ast.Expr
 	kind := ""
@@ -494,7 +492,12 @@ func (in *inliner) inlineStmt(stmt ast.Stmt, self *types.Func) ast.Stmt {
 		}
 	case *ast.IfStmt:
 		if s.Init != nil {
-			if rep := in.inlineStmt(s.Init, self); rep != nil {
+			if in.nilCheckOf(s, s.Init) != nil {
+				if rep := in.inlineStmt(s.Init, self, s); rep != nil {
+					return rep
+				}
+			}
+			if rep := in.inlineStmt(s.Init, self, nil); rep != nil {
 				return &ast.BlockStmt{Lbrace: s.Pos(), Rbrace: s.End(), List: []ast.Stmt{rep, &ast.IfStmt{If: s.If, Cond: s.Cond, Body: s.Body, Else: s.Else}}}
 			}
 		}
@@ -561,7 +564,12 @@ func (in *inliner) inlineStmt(stmt ast.Stmt, self *types.Func) ast.Stmt {
 				}
 				rhs := ret.Results
 				as := &ast.AssignStmt{Lhs: l, Tok: token.ASSIGN, TokPos: ret.Pos(), Rhs: rhs}
-				c.Replace(&ast.BlockStmt{Lbrace: ret.Pos(), Rbrace: ret.End(), List: []ast.Stmt{as, &ast.BranchStmt{Tok: token.BREAK, Label: label, TokPos: ret.Pos()}}})
+				stmts := []ast.Stmt{as}
+				if cont != nil {
+					stmts = in.foldNilCheck(cont, as, in.nilCheckOf(cont, stmt))
+				}
+				stmts = append(stmts, &ast.BranchStmt{Tok: token.BREAK, Label: label, TokPos: ret.Pos()})
+				c.Replace(&ast.BlockStmt{Lbrace: ret.Pos(), Rbrace: ret.End(), List: stmts})
 			}
 			return true
 		})
@@ -602,4 +610,107 @@ func (in *inliner) cloneLHS(e ast.Expr) ast.Expr {
 		return n
 	}
 	return in.clone(e, nil).(ast.Expr)
+}
+
+func stmtList(n ast.Node) []ast.Stmt {
+	switch x := n.(type) {
+	case *ast.BlockStmt:
+		return x.List
+	case *ast.CaseClause:
+		return x.Body
+	case *ast.CommClause:
+		return x.Body
+	}
+	return nil
+}
+
+// nilCheckOf returns the variable v when ifs is `if v != nil { body }` (no else, no branch
+// statements in body) and v is assigned by the statement assign.
+func (in *inliner) nilCheckOf(ifs *ast.IfStmt, assign ast.Stmt) types.Object {
+	as, ok := assign.(*ast.AssignStmt)
+	if !ok || ifs.Else != nil {
+		return nil
+	}
+	be, ok := ifs.Cond.(*ast.BinaryExpr)
+	if !ok || be.Op != token.NEQ || !astx.IsNil(in.info, be.Y) {
+		return nil
+	}
+	v := astx.ObjOf(in.info, be.X)
+	if _, isVar := v.(*types.Var); !isVar {
+		return nil
+	}
+	found := false
+	for _, l := range as.Lhs {
+		if id, isID := l.(*ast.Ident); isID && astx.ObjOf(in.info, id) == v {
+			found = true
+		}
+	}
+	if !found {
+		return nil
+	}
+	clean := true
+	ast.Inspect(ifs.Body, func(n ast.Node) bool {
+		switch n.(type) {
+		case *ast.FuncLit:
+			return false
+		case *ast.BranchStmt, *ast.LabeledStmt:
+			clean = false
+		}
+		return true
+	})
+	if !clean {
+		return nil
+	}
+	return v
+}
+
+// foldNilCheck specialises `if v != nil { body }` for one return site of an inlined helper whose
+// results are assigned by as: dropped when the returned value is the nil literal, unconditional
+// when it cannot be nil (and `return v` then returns the value itself), kept otherwise.
+func (in *inliner) foldNilCheck(cont *ast.IfStmt, as *ast.AssignStmt, v types.Object) []ast.Stmt {
+	idx := -1
+	for i, l := range as.Lhs {
+		if id, isID := l.(*ast.Ident); isID && astx.ObjOf(in.info, id) == v {
+			idx = i
+		}
+	}
+	generic := func() []ast.Stmt {
+		c := in.clone(cont, nil).(*ast.IfStmt)
+		c.Init = nil
+		return []ast.Stmt{as, c}
+	}
+	if idx < 0 || len(as.Lhs) != len(as.Rhs) {
+		return generic()
+	}
+	x := as.Rhs[idx]
+	switch {
+	case astx.IsNil(in.info, x):
+		return []ast.Stmt{as}
+	case astx.NeverNil(in.info, x):
+		uses := 0
+		ast.Inspect(cont.Body, func(n ast.Node) bool {
+			if id, isID := n.(*ast.Ident); isID && in.info.Uses[id] == v {
+				uses++
+			}
+			return true
+		})
+		if ret, isRet := cont.Body.List[len(cont.Body.List)-1].(*ast.ReturnStmt); isRet && len(cont.Body.List) == 1 && uses == 1 && ret != nil {
+			body := in.clone(cont.Body, map[types.Object]ast.Expr{v: x}).(*ast.BlockStmt)
+			var out []ast.Stmt
+			if len(as.Lhs) > 1 {
+				rest := &ast.AssignStmt{Tok: as.Tok, TokPos: as.TokPos}
+				for i := range as.Lhs {
+					if i != idx {
+						rest.Lhs = append(rest.Lhs, as.Lhs[i])
+						rest.Rhs = append(rest.Rhs, as.Rhs[i])
+					}
+				}
+				out = append(out, rest)
+			}
+			return append(out, body.List...)
+		}
+		body := in.clone(cont.Body, nil).(*ast.BlockStmt)
+		return append([]ast.Stmt{as}, body.List...)
+	}
+	return generic()
 }
